@@ -5,6 +5,8 @@ package main
 import (
 	"fmt"
 	"os"
+
+	"golang.org/x/tools/go/ssa/ssautil"
 	"go/types"
 	"strings"
 )
@@ -507,6 +509,20 @@ func (fx *FX) evalCall(env *Env, c ECall) Val {
 				return VSeq{app(SSeq, "reqquery", p.Ref, seq(1))}
 			}
 			return VSeq{app(SSeq, c.Fn, p.Ref)}
+		}
+	case "funcis": // funcis(f, name): the function value f is the function (literal) called name in this package
+		if fv, ok := argv(0).(VFunc); ok {
+			if id, ok := c.Args[1].(EIdent); ok {
+				for _, p := range fx.u.Pkgs {
+					for fn := range ssautil.AllFunctions(fx.u.Prog) {
+						if fn.Pkg == p || (fn.Parent() != nil && fn.Parent().Pkg == p) {
+							if fn.Name() == id.Name {
+								return VBool{eq(fv.Id, num(fx.u.fnID(fn)))}
+							}
+						}
+					}
+				}
+			}
 		}
 	case "jok": // jok(text, TypeName): json.Unmarshal of text into a TypeName succeeds
 		if id, ok := c.Args[1].(EIdent); ok {
